@@ -290,6 +290,12 @@ func (r *Raft) onInstallSnapRequest(req *installSnapReq, c *conn) (rpcResult, er
 	r.setState(Follower)
 	r.setLeader(req.src)
 
+	// a delayed or duplicated request: everything in this snapshot is
+	// already committed here, storing it would move us backwards
+	if req.lastIndex <= r.commitIndex {
+		return drain(success, nil)
+	}
+
 	// store snapshot
 	sink, err := r.snaps.new(req.lastIndex, req.lastTerm, req.lastConfig)
 	if err != nil {
